@@ -26,9 +26,9 @@ if [ "${1:-}" = "--replay" ]; then
     *) exec "$AT"/release/c19 --tier "$TIER" "$@";;
   esac
 fi
-rm -f /verif/.target/c19-threads-evidence.json
-VERIF_EVIDENCE_PATH=/verif/.target/c19-threads-evidence.json VERIF_REPLAY_TAG=threads "$ST"/release/c19t --tier "$TIER"; rc1=$?
-VERIF_MERGE_EVIDENCE="threads_under_loom=/verif/.target/c19-threads-evidence.json" "$AT"/release/c19 --tier "$TIER"; rc2=$?
+rm -f "$AT"/c19-threads-evidence.json
+VERIF_EVIDENCE_PATH="$AT"/c19-threads-evidence.json VERIF_REPLAY_TAG=threads "$ST"/release/c19t --tier "$TIER"; rc1=$?
+VERIF_MERGE_EVIDENCE="threads_under_loom="$AT"/c19-threads-evidence.json" "$AT"/release/c19 --tier "$TIER"; rc2=$?
 cleanup_scratch
 if [ $rc1 -eq 2 ] || [ $rc2 -eq 2 ]; then exit 2; fi
 if [ $rc1 -eq 1 ] || [ $rc2 -eq 1 ]; then exit 1; fi
